@@ -55,4 +55,6 @@ for i in ids:
     json.dump(res, open(os.path.join(d, "result.json"), "w"), indent=1)
     summary[i] = ("CAUGHT" if res["caught"] else "MISSED") + (" (concrete)" if res["concrete_replay"] else " (no input)" if res["caught"] else "") + " rc=%d %.0fs" % (rc, res["wall_s"])
     print(i, summary[i], flush=True)
+# restore the translator output for the real /repo (a scratch/mutated run rewrote lean/Batchie/Generated)
+subprocess.run([sys.executable, os.path.join(here, "translate", "py2lean.py")], capture_output=True, env={k: v for k, v in os.environ.items() if k != "BATCHIE_REPO"})
 print(json.dumps(summary, indent=1))
